@@ -397,7 +397,9 @@ def gen_world_new(r, kind=None, ns=None, loop=None, malformed=False, cmd_share=N
         if r.chance(0.3):
             toks.append(f"cmax={hi}")
         toks.append(f"maxp={hi}")
-        toks.append(f"startp={r.range(lo, hi)}")
+        # the start PWM normally lies inside the limits, but nothing forces it to (configured limits win over a measured
+        # start PWM; an unknown start PWM reads as 255): seed C01e used it as a write value
+        toks.append(f"startp={r.range(lo, hi) if r.chance(0.7) else r.range(0, 255)}")
         toks.append(f"avg={fx(r.pick([0.0, 1.0, 300.0, 1000.0, 5000.0]))}")
         toks.append(f"hasmode={0 if r.chance(0.15) else 1}")
         toks.append(f"hasrpm={0 if r.chance(0.1) else 1}")
@@ -520,6 +522,11 @@ def gen_sensor_case(r, kind=None, n=40, fault_rate=0.2):
 
 def gen_sensors(r, ncases, **kw):
     ops = []
+    # the real sensor monitor (its own loop and ticker) through outages of very different lengths
+    for polls in [5, 40, 90, r.range(10, 150)][: (2 if ncases < 50 else 4)] + [120]:
+        good = r.range(0, 4)
+        ops += ["#case sn monitor", f"sn.monitor win={r.pick([1, 2, 10])} avg={fx(float(r.range(20000, 90000)))} "
+                f"val={fx(float(r.range(20000, 90000)))} good={good} polls={polls} rate_us={r.pick([200, 500])}"]
     for _ in range(ncases):
         ops += gen_sensor_case(r, **kw)
     return ops
